@@ -19,6 +19,7 @@ type c18Sc struct {
 	Templates  []string           `json:"templates"` // one per task (1 = sequential leg: rendered one after the other)
 	Part       string             `json:"part"`
 	Concurrent bool               `json:"concurrent"`
+	Via        string             `json:"via,omitempty"` // "" Engine.Render | renderto | parsed (ParseTemplate + Template.Render) | debug (engine in debug mode)
 	PreemptDen int                `json:"preempt_den"`
 	Explicit   bool               `json:"explicit,omitempty"`
 	Schedule   []simrt.SchedEntry `json:"schedule,omitempty"`
@@ -156,6 +157,7 @@ func (propC18) Gen(seed uint64, ex map[string]bool) interface{} {
 		sc.Templates = append(sc.Templates, c18Template(r))
 	}
 	sc.Concurrent = r.P(50)
+	sc.Via = pick(r, []string{"", "", "renderto", "parsed", "debug"})
 	sc.PreemptDen = pick(r, []int{4, 16, 64})
 	return sc
 }
@@ -259,16 +261,36 @@ func (propC18) Run(scI interface{}) *Outcome {
 		}
 	}()
 	e := twig.New()
+	if sc.Via == "debug" {
+		e.SetDebug(true)
+	}
 	e.RegisterString("part", sc.Part)
+	parsed := make([]*twig.Template, len(sc.Templates))
 	for i, src := range sc.Templates {
 		e.RegisterString(fmt.Sprintf("t%d", i), src)
+		if sc.Via == "parsed" {
+			parsed[i], _ = e.ParseTemplate(src) // parsed before any task starts
+		}
+	}
+	render := func(i int, ctx map[string]interface{}) (string, error) {
+		switch {
+		case sc.Via == "renderto":
+			var sb strings.Builder
+			if err := e.RenderTo(&sb, fmt.Sprintf("t%d", i), ctx); err != nil {
+				return "", err
+			}
+			return sb.String(), nil
+		case sc.Via == "parsed" && parsed[i] != nil:
+			return parsed[i].Render(ctx)
+		}
+		return e.Render(fmt.Sprintf("t%d", i), ctx)
 	}
 	ctx := c18Build(sc.Ctx)
 	before := snapshot(ctx)
 	got := make([]Obs, len(sc.Templates))
 	if !sc.Concurrent {
 		for i := range sc.Templates {
-			got[i] = observe(nil, func() (string, error) { return e.Render(fmt.Sprintf("t%d", i), ctx) })
+			got[i] = observe(nil, func() (string, error) { return render(i, ctx) })
 			o.Probes["renders"]++
 			if after := snapshot(ctx); after != before {
 				return fail("caller-data-snapshot", "render modified the caller's context data", fmt.Sprintf("template #%d %q\n%s", i, sc.Templates[i], diffSnap(before, after)))
@@ -278,7 +300,7 @@ func (propC18) Run(scI interface{}) *Outcome {
 		for i := range sc.Templates {
 			i := i
 			w.Go(func() {
-				got[i] = observe(nil, func() (string, error) { return e.Render(fmt.Sprintf("t%d", i), ctx) })
+				got[i] = observe(nil, func() (string, error) { return render(i, ctx) })
 			})
 		}
 		if ab := w.RunTasks(); ab != "" {
@@ -371,6 +393,11 @@ func (propC18) Shrink(scI interface{}) []interface{} {
 	if sc.Concurrent {
 		c := clone()
 		c.Concurrent = false
+		out = append(out, c)
+	}
+	if sc.Via != "" {
+		c := clone()
+		c.Via = ""
 		out = append(out, c)
 	}
 	if len(sc.Templates) > 1 {
